@@ -320,7 +320,7 @@ func c15ErrorsProp(rt *rapid.T) {
 	if c15ErrorsPropK++; c15ErrorsPropK%499 == 1 {
 		cov.Sample("c15.error", c)
 	}
-	judge(rt, "c15.error", c15Check, c)
+	judgeH(rt, "c15.error", c15Check, c, l)
 }
 
 // FuzzC15 drives the same property coverage-guided (thorough tier): the fuzzer's bytes are
